@@ -9,6 +9,19 @@
 // checker (so FirstCompactShareContentSize is printed as 474 only if the source says so).
 // Anything outside the supported fragment makes the function "unsupported": it is not
 // emitted, and the theorems about it no longer compile.
+//
+// A second table (selectedL) names functions that also use slices of integers; they are printed,
+// after the scalar ones, as values of the GoLiteL embedding (coq/Model/GoLiteL.v; gen_program_l).
+// GoLiteL gives slices a BY-VALUE meaning, which agrees with Go only without aliasing, so in that
+// mode the translator accepts exactly: var x []T, x = nil, x = make([]T, n), x = append(x, e) (the
+// same variable, one element), x[i] = e / op= / ++ on an own (non-parameter) slice variable, len(x),
+// x[i], for k, v := range x over a slice variable (with a value variable only if the body does not
+// change x), slice variables or nil as call arguments (no variable twice in one call), own slice
+// variables, nil or calls as results, x := f(...) for a slice result.  Slice parameters are
+// read-only (no store, append, assignment, return), so the slice a call returns is always fresh.
+// Everything else (slicing, copy, y := x, append to another variable or with several elements or
+// ..., slices of non-integers, slices in structs, methods, calls of variadic functions, range over
+// anything else) is refused.
 package main
 
 import (
@@ -38,6 +51,15 @@ var selected = []struct {
 	{".", []string{"IsPowerOfTwo", "RoundUpPowerOfTwo", "Builder.canFit", "Builder.CurrentSize", "Builder.SubtreeRootThreshold", "Element.maxShareOffset"}},
 }
 
+// the functions with integer slices, translated to the GoLiteL embedding (coq/Model/GoLiteL.v)
+var selectedL = []struct {
+	dir   string
+	names []string
+}{
+	{"inclusion", []string{"MerkleMountainRangeSizes", "BlobSharesUsedNonInteractiveDefaults"}},
+	{".", []string{"worstCaseShareIndexes"}},
+}
+
 type unsupported struct{ msg string }
 
 func fail(format string, a ...any) { panic(unsupported{fmt.Sprintf(format, a...)}) }
@@ -50,6 +72,298 @@ type tr struct {
 	rflds map[string]bool // the receiver's modelled (integer) fields
 	names map[types.Object]string
 	used  map[string]int
+	// GoLiteL mode (integer slices): constructor names are the GoLiteL ones, slice forms are accepted
+	L       bool
+	sparams map[types.Object]bool // the slice parameters of the function: read-only
+}
+
+// c maps a GoLite constructor name to the GoLiteL one in L mode (EConst -> LConst, SSeq -> LSSeq)
+func (t *tr) c(name string) string {
+	if !t.L {
+		return name
+	}
+	if name[0] == 'E' {
+		return "L" + name[1:]
+	}
+	return "L" + name
+}
+
+// sliceElem: t is a slice of a fixed-width integer type
+func sliceElem(t types.Type) bool {
+	if t == nil {
+		return false
+	}
+	s, ok := t.Underlying().(*types.Slice)
+	if !ok {
+		return false
+	}
+	b, ok := s.Elem().Underlying().(*types.Basic)
+	if !ok {
+		return false
+	}
+	switch b.Kind() {
+	case types.Int, types.Int64, types.Uint64, types.Uint, types.Uintptr, types.Uint32, types.Uint8:
+		return true
+	}
+	return false
+}
+
+func isSliceType(t types.Type) bool {
+	if t == nil {
+		return false
+	}
+	_, ok := t.Underlying().(*types.Slice)
+	return ok
+}
+
+// tyOK: a type a variable, argument or result may have
+func (t *tr) tyOK(ty types.Type) {
+	if t.L && isSliceType(ty) {
+		if !sliceElem(ty) {
+			fail("type %s: only slices of int, int64, uint, uint64, uintptr, uint32, uint8 are in the slice fragment", ty.String())
+		}
+		return
+	}
+	ityOf(ty)
+}
+
+// sliceVar: e is an identifier denoting a local slice variable or slice parameter (L mode)
+func (t *tr) sliceVar(e ast.Expr) (*types.Var, bool) {
+	for {
+		p, ok := e.(*ast.ParenExpr)
+		if !ok {
+			break
+		}
+		e = p.X
+	}
+	id, ok := e.(*ast.Ident)
+	if !ok {
+		return nil, false
+	}
+	obj := t.info.Uses[id]
+	if obj == nil {
+		obj = t.info.Defs[id]
+	}
+	v, ok := obj.(*types.Var)
+	if !ok || !isSliceType(v.Type()) {
+		return nil, false
+	}
+	t.localOnly(v)
+	t.tyOK(v.Type())
+	return v, true
+}
+
+// ownSlice: a slice variable the function may change (not a parameter: the caller would see the change,
+// or a result would alias the caller's slice)
+func (t *tr) ownSlice(e ast.Expr, what string) *types.Var {
+	v, ok := t.sliceVar(e)
+	if !ok {
+		fail("%s %s: not a slice variable", what, types.ExprString(e))
+	}
+	if t.sparams[v] {
+		fail("%s the slice parameter %s (parameters are read-only: the caller could see the change)", what, v.Name())
+	}
+	return v
+}
+
+func (t *tr) builtinName(x *ast.CallExpr) string {
+	f := x.Fun
+	for {
+		p, ok := f.(*ast.ParenExpr)
+		if !ok {
+			break
+		}
+		f = p.X
+	}
+	if id, ok := f.(*ast.Ident); ok {
+		if b, ok := t.info.Uses[id].(*types.Builtin); ok {
+			return b.Name()
+		}
+	}
+	return ""
+}
+
+func (t *tr) isNil(e ast.Expr) bool {
+	tv, ok := t.info.Types[e]
+	return ok && tv.IsNil()
+}
+
+// sliceValue: a slice-typed expression in a position that takes a fresh or read-only slice value:
+// what = "argument" (a variable or nil) or "result" (an own variable, nil, or a call)
+func (t *tr) sliceValue(e ast.Expr, what string) string {
+	for {
+		p, ok := e.(*ast.ParenExpr)
+		if !ok {
+			break
+		}
+		e = p.X
+	}
+	if t.isNil(e) {
+		return "LNil"
+	}
+	if _, ok := e.(*ast.SliceExpr); ok {
+		fail("slicing expression %s", types.ExprString(e))
+	}
+	t.tyOK(t.info.TypeOf(e))
+	if _, ok := e.(*ast.Ident); ok {
+		var v *types.Var
+		if what == "argument" {
+			var ok bool
+			v, ok = t.sliceVar(e)
+			if !ok {
+				fail("slice %s %s", what, types.ExprString(e))
+			}
+		} else {
+			v = t.ownSlice(e, "return of")
+		}
+		return "(LVar " + q(t.nameOf(v)) + ")"
+	}
+	if c, ok := e.(*ast.CallExpr); ok && what != "argument" && t.builtinName(c) == "" {
+		if tv, ok := t.info.Types[c.Fun]; ok && tv.IsType() {
+			fail("conversion to a slice type")
+		}
+		return t.expr(e)
+	}
+	fail("slice %s %s: only a slice variable or nil", what, types.ExprString(e))
+	return ""
+}
+
+// indexParts: x[i] with x a slice variable -> name of x, translated index
+func (t *tr) indexParts(x *ast.IndexExpr, store bool) (string, string) {
+	var v *types.Var
+	if store {
+		v = t.ownSlice(x.X, "store into")
+	} else {
+		var ok bool
+		v, ok = t.sliceVar(x.X)
+		if !ok {
+			fail("index expression %s: only a slice variable can be indexed", types.ExprString(x))
+		}
+	}
+	ik := ityOf(t.info.TypeOf(x.Index))
+	if ik == "IBool" || ik == "IErr" {
+		fail("index of type %s", ik)
+	}
+	return t.nameOf(v), t.expr(x.Index)
+}
+
+// assignSlice: `lhs = rhs` / `lhs := rhs` with rhs of a slice type
+func (t *tr) assignSlice(lhs ast.Expr, rhs ast.Expr) string {
+	for {
+		p, ok := rhs.(*ast.ParenExpr)
+		if !ok {
+			break
+		}
+		rhs = p.X
+	}
+	if id, ok := lhs.(*ast.Ident); !ok || id.Name == "_" {
+		fail("assignment of a slice to %s", types.ExprString(lhs))
+	}
+	if !t.isNil(rhs) {
+		t.tyOK(t.info.TypeOf(rhs))
+	}
+	if t.isNil(rhs) {
+		return "(LSAssign " + q(t.nameOf(t.ownSlice(lhs, "assignment to"))) + " LNil)"
+	}
+	switch r := rhs.(type) {
+	case *ast.Ident:
+		fail("assignment of the slice variable %s to another variable (aliasing between slice variables)", r.Name)
+	case *ast.SliceExpr:
+		fail("slicing expression %s", types.ExprString(rhs))
+	case *ast.CallExpr:
+		switch t.builtinName(r) {
+		case "make":
+			if len(r.Args) != 2 {
+				fail("make with %d arguments (only make([]T, n))", len(r.Args))
+			}
+			t.tyOK(t.info.TypeOf(r.Args[0]))
+			nk := ityOf(t.info.TypeOf(r.Args[1]))
+			if nk == "IBool" || nk == "IErr" {
+				fail("make with a length of type %s", nk)
+			}
+			n := t.expr(r.Args[1])
+			return "(LSMake " + q(t.nameOf(t.ownSlice(lhs, "assignment to"))) + " " + n + ")"
+		case "append":
+			if r.Ellipsis.IsValid() {
+				fail("append with ...")
+			}
+			if len(r.Args) != 2 {
+				fail("append with %d arguments (only x = append(x, e))", len(r.Args))
+			}
+			src, ok := t.sliceVar(r.Args[0])
+			if !ok {
+				fail("append to %s: only x = append(x, e)", types.ExprString(r.Args[0]))
+			}
+			lid := lhs.(*ast.Ident)
+			lobj := t.info.Defs[lid]
+			if lobj == nil {
+				lobj = t.info.Uses[lid]
+			}
+			if lobj != types.Object(src) {
+				fail("append of %s assigned to %s: only x = append(x, e) (aliasing between slice variables)", src.Name(), lid.Name)
+			}
+			ityOf(t.info.TypeOf(r.Args[1]))
+			e := t.expr(r.Args[1])
+			return "(LSAppend " + q(t.nameOf(t.ownSlice(lhs, "append to"))) + " " + e + ")"
+		case "":
+			if tv, ok := t.info.Types[r.Fun]; ok && tv.IsType() {
+				fail("conversion to a slice type")
+			}
+			e := t.expr(rhs) // a call: its slice result is fresh
+			return "(LSAssign " + q(t.nameOf(t.ownSlice(lhs, "assignment to"))) + " " + e + ")"
+		default:
+			fail("builtin %s", t.builtinName(r))
+		}
+	}
+	fail("slice expression %s", types.ExprString(rhs))
+	return ""
+}
+
+// modifies: does the statement tree assign to, store into or append onto the slice variable v?
+func (t *tr) modifies(b ast.Node, v *types.Var) bool {
+	found := false
+	is := func(e ast.Expr) bool {
+		for {
+			switch x := e.(type) {
+			case *ast.ParenExpr:
+				e = x.X
+				continue
+			case *ast.IndexExpr:
+				e = x.X
+				continue
+			}
+			break
+		}
+		id, ok := e.(*ast.Ident)
+		if !ok {
+			return false
+		}
+		obj := t.info.Uses[id]
+		if obj == nil {
+			obj = t.info.Defs[id]
+		}
+		return obj == types.Object(v)
+	}
+	ast.Inspect(b, func(n ast.Node) bool {
+		switch x := n.(type) {
+		case *ast.AssignStmt:
+			for _, l := range x.Lhs {
+				if is(l) {
+					found = true
+				}
+			}
+		case *ast.IncDecStmt:
+			if is(x.X) {
+				found = true
+			}
+		case *ast.RangeStmt:
+			if (x.Key != nil && is(x.Key)) || (x.Value != nil && is(x.Value)) {
+				found = true
+			}
+		}
+		return true
+	})
+	return found
 }
 
 func ityOf(t types.Type) string {
@@ -155,14 +469,52 @@ func (t *tr) expr(e ast.Expr) string {
 	if tv, ok := t.info.Types[e]; ok && tv.Value != nil {
 		switch tv.Value.Kind() {
 		case constant.Int:
-			return "(EConst " + zlit(tv.Value.ExactString()) + ")"
+			return "(" + t.c("EConst") + " " + zlit(tv.Value.ExactString()) + ")"
 		case constant.Bool:
 			if constant.BoolVal(tv.Value) {
-				return "(EConst 1)"
+				return "(" + t.c("EConst") + " 1)"
 			}
-			return "(EConst 0)"
+			return "(" + t.c("EConst") + " 0)"
 		default:
 			fail("constant %s of kind %v", tv.Value.String(), tv.Value.Kind())
+		}
+	}
+	if t.L {
+		switch x := e.(type) {
+		case *ast.IndexExpr:
+			if tv, ok := t.info.Types[x.X]; ok && isSliceType(tv.Type) {
+				name, idx := t.indexParts(x, false)
+				ityOf(t.info.TypeOf(e))
+				return "(LIndex " + q(name) + " " + idx + ")"
+			}
+		case *ast.SliceExpr:
+			fail("slicing expression %s", types.ExprString(e))
+		case *ast.CallExpr:
+			switch b := t.builtinName(x); b {
+			case "":
+			case "len":
+				if len(x.Args) != 1 {
+					fail("len with %d arguments", len(x.Args))
+				}
+				v, ok := t.sliceVar(x.Args[0])
+				if !ok {
+					fail("len(%s): only the length of a slice variable", types.ExprString(x.Args[0]))
+				}
+				return "(LLen " + q(t.nameOf(v)) + ")"
+			case "append":
+				fail("append outside `x = append(x, e)`")
+			case "make":
+				fail("make outside `x = make([]T, n)`")
+			default:
+				fail("builtin %s", b)
+			}
+		case *ast.Ident:
+			if isSliceType(t.info.TypeOf(e)) {
+				if t.isNil(e) {
+					fail("nil slice in a scalar expression")
+				}
+				fail("slice variable %s used as a value (aliasing between slice variables)", x.Name)
+			}
 		}
 	}
 	switch x := e.(type) {
@@ -174,7 +526,7 @@ func (t *tr) expr(e ast.Expr) string {
 			obj = t.info.Defs[x]
 		}
 		if _, isNil := obj.(*types.Nil); isNil {
-			return "(EConst 0)"
+			return "(" + t.c("EConst") + " 0)"
 		}
 		v, ok := obj.(*types.Var)
 		if !ok {
@@ -182,22 +534,22 @@ func (t *tr) expr(e ast.Expr) string {
 		}
 		t.localOnly(v)
 		ityOf(obj.Type())
-		return "(EVar " + q(t.nameOf(obj)) + ")"
+		return "(" + t.c("EVar") + " " + q(t.nameOf(obj)) + ")"
 	case *ast.SelectorExpr:
 		if id, ok := x.X.(*ast.Ident); ok && t.recv != nil && t.info.Uses[id] == t.recv {
 			if !t.rflds[x.Sel.Name] {
 				fail("receiver field %s is not one of the modelled integer fields", x.Sel.Name)
 			}
 			ityOf(t.info.TypeOf(e))
-			return "(EVar " + q(id.Name+"."+x.Sel.Name) + ")"
+			return "(" + t.c("EVar") + " " + q(id.Name+"."+x.Sel.Name) + ")"
 		}
 		fail("selector %s", types.ExprString(e))
 	case *ast.UnaryExpr:
 		switch x.Op {
 		case token.NOT:
-			return "(ENot " + t.expr(x.X) + ")"
+			return "(" + t.c("ENot") + " " + t.expr(x.X) + ")"
 		case token.SUB:
-			return "(EBin " + ityOf(t.info.TypeOf(e)) + " OSub (EConst 0) " + t.expr(x.X) + ")"
+			return "(" + t.c("EBin") + " " + ityOf(t.info.TypeOf(e)) + " OSub (EConst 0) " + t.expr(x.X) + ")"
 		case token.ADD:
 			return t.expr(x.X)
 		}
@@ -206,9 +558,9 @@ func (t *tr) expr(e ast.Expr) string {
 		a, b := t.expr(x.X), t.expr(x.Y)
 		switch x.Op {
 		case token.LAND:
-			return "(EAndAlso " + a + " " + b + ")"
+			return "(" + t.c("EAndAlso") + " " + a + " " + b + ")"
 		case token.LOR:
-			return "(EOrElse " + a + " " + b + ")"
+			return "(" + t.c("EOrElse") + " " + a + " " + b + ")"
 		case token.LSS, token.LEQ, token.GTR, token.GEQ, token.EQL, token.NEQ:
 			if ityOf(t.info.TypeOf(x.X)) == "IErr" || ityOf(t.info.TypeOf(x.Y)) == "IErr" {
 				// an error value is modelled as nil / non-nil only: comparing two errors is outside the fragment
@@ -217,7 +569,7 @@ func (t *tr) expr(e ast.Expr) string {
 				}
 			}
 			op := map[token.Token]string{token.LSS: "CLt", token.LEQ: "CLe", token.GTR: "CGt", token.GEQ: "CGe", token.EQL: "CEq", token.NEQ: "CNe"}[x.Op]
-			return "(ECmp " + op + " " + a + " " + b + ")"
+			return "(" + t.c("ECmp") + " " + op + " " + a + " " + b + ")"
 		}
 		op, ok := map[token.Token]string{token.ADD: "OAdd", token.SUB: "OSub", token.MUL: "OMul", token.QUO: "OQuo", token.REM: "ORem",
 			token.SHL: "OShl", token.SHR: "OShr", token.AND: "OAnd", token.OR: "OOr", token.XOR: "OXor"}[x.Op]
@@ -228,7 +580,7 @@ func (t *tr) expr(e ast.Expr) string {
 		if ty == "IBool" || ty == "IErr" {
 			fail("arithmetic at type %s", ty)
 		}
-		return "(EBin " + ty + " " + op + " " + a + " " + b + ")"
+		return "(" + t.c("EBin") + " " + ty + " " + op + " " + a + " " + b + ")"
 	case *ast.CallExpr:
 		if tv, ok := t.info.Types[x.Fun]; ok && tv.IsType() {
 			if len(x.Args) != 1 {
@@ -239,17 +591,17 @@ func (t *tr) expr(e ast.Expr) string {
 			if from == "IBool" || from == "IErr" || to == "IBool" || to == "IErr" {
 				fail("conversion %s -> %s", from, to)
 			}
-			return "(EConv " + to + " " + t.expr(x.Args[0]) + ")"
+			return "(" + t.c("EConv") + " " + to + " " + t.expr(x.Args[0]) + ")"
 		}
 		f, targ, args := t.call(x)
 		if f == "fmt.Errorf" || f == "errors.New" {
-			return "(EConst 1)"
+			return "(" + t.c("EConst") + " 1)"
 		}
 		sig := t.info.TypeOf(x.Fun).(*types.Signature)
 		if sig.Results().Len() != 1 {
 			fail("call of %s with %d results inside an expression", f, sig.Results().Len())
 		}
-		return "(ECall " + q(f) + " " + targ + " " + args + ")"
+		return "(" + t.c("ECall") + " " + q(f) + " " + targ + " " + args + ")"
 	}
 	fail("expression %s", types.ExprString(e))
 	return ""
@@ -307,22 +659,36 @@ func (t *tr) call(x *ast.CallExpr) (string, string, string) {
 	if x.Ellipsis.IsValid() {
 		fail("variadic call")
 	}
+	if t.L && fn.Type().(*types.Signature).Variadic() {
+		fail("call of the variadic function %s", key)
+	}
 	var as []string
+	passed := map[*types.Var]bool{}
 	for _, a := range x.Args {
+		if t.L && isSliceType(t.info.TypeOf(a)) {
+			if v, ok := t.sliceVar(a); ok {
+				if passed[v] {
+					fail("the slice %s is passed to two parameters of %s (aliasing)", v.Name(), key)
+				}
+				passed[v] = true
+			}
+			as = append(as, t.sliceValue(a, "argument"))
+			continue
+		}
 		ityOf(t.info.TypeOf(a))
 		as = append(as, t.expr(a))
 	}
 	return key, targ, "[" + strings.Join(as, "; ") + "]"
 }
 
-func seq(ss []string) string {
+func (t *tr) seq(ss []string) string {
 	if len(ss) == 0 {
-		return "SSkip"
+		return t.c("SSkip")
 	}
 	if len(ss) == 1 {
 		return ss[0]
 	}
-	return "(SSeq " + ss[0] + "\n   " + seq(ss[1:]) + ")"
+	return "(" + t.c("SSeq") + " " + ss[0] + "\n   " + t.seq(ss[1:]) + ")"
 }
 
 func (t *tr) lhs(e ast.Expr) string {
@@ -340,6 +706,9 @@ func (t *tr) lhs(e ast.Expr) string {
 			fail("assignment to %s", x.Name)
 		}
 		t.localOnly(v)
+		if t.L && isSliceType(obj.Type()) {
+			return t.nameOf(t.ownSlice(e, "assignment to"))
+		}
 		ityOf(obj.Type())
 		return t.nameOf(obj)
 	case *ast.SelectorExpr:
@@ -360,7 +729,7 @@ func (t *tr) block(b *ast.BlockStmt, results *types.Tuple) string {
 	for _, s := range b.List {
 		ss = append(ss, t.stmt(s, results))
 	}
-	return seq(ss)
+	return t.seq(ss)
 }
 
 func (t *tr) stmt(s ast.Stmt, results *types.Tuple) string {
@@ -368,7 +737,7 @@ func (t *tr) stmt(s ast.Stmt, results *types.Tuple) string {
 	case *ast.BlockStmt:
 		return t.block(x, results)
 	case *ast.EmptyStmt:
-		return "SSkip"
+		return t.c("SSkip")
 	case *ast.DeclStmt:
 		gd, ok := x.Decl.(*ast.GenDecl)
 		if !ok || gd.Tok != token.VAR {
@@ -381,15 +750,24 @@ func (t *tr) stmt(s ast.Stmt, results *types.Tuple) string {
 				fail("var with a multi-value initialiser")
 			}
 			for i, n := range vs.Names {
+				if t.L && n.Name != "_" && isSliceType(t.info.TypeOf(n)) {
+					if len(vs.Values) == 0 {
+						t.tyOK(t.info.TypeOf(n))
+						ss = append(ss, "(LSAssign "+q(t.nameOf(t.ownSlice(n, "declaration of")))+" LNil)")
+					} else {
+						ss = append(ss, t.assignSlice(n, vs.Values[i]))
+					}
+					continue
+				}
 				name := t.lhs(n)
 				if len(vs.Values) == 0 {
-					ss = append(ss, "(SAssign "+q(name)+" (EConst 0))")
+					ss = append(ss, "("+t.c("SAssign")+" "+q(name)+" ("+t.c("EConst")+" 0))")
 				} else {
-					ss = append(ss, "(SAssign "+q(name)+" "+t.expr(vs.Values[i])+")")
+					ss = append(ss, "("+t.c("SAssign")+" "+q(name)+" "+t.expr(vs.Values[i])+")")
 				}
 			}
 		}
-		return seq(ss)
+		return t.seq(ss)
 	case *ast.AssignStmt:
 		if len(x.Rhs) == 1 && len(x.Lhs) > 1 {
 			c, ok := x.Rhs[0].(*ast.CallExpr)
@@ -401,7 +779,7 @@ func (t *tr) stmt(s ast.Stmt, results *types.Tuple) string {
 			for _, l := range x.Lhs {
 				names = append(names, q(t.lhs(l)))
 			}
-			return "(SCall [" + strings.Join(names, "; ") + "] " + q(f) + " " + targ + " " + args + ")"
+			return "(" + t.c("SCall") + " [" + strings.Join(names, "; ") + "] " + q(f) + " " + targ + " " + args + ")"
 		}
 		if len(x.Lhs) != 1 || len(x.Rhs) != 1 {
 			fail("parallel assignment")
@@ -409,9 +787,29 @@ func (t *tr) stmt(s ast.Stmt, results *types.Tuple) string {
 		// evaluate the right-hand side before naming the target: in `x := x + 1` of an inner scope the
 		// right-hand x is the outer one
 		var rhs string
+		if ix, ok := x.Lhs[0].(*ast.IndexExpr); ok && t.L {
+			// x[i] = e, x[i] op= e: the index, then the right-hand side, then the bounds check of the store
+			name, idx := t.indexParts(ix, true)
+			ty := ityOf(t.info.TypeOf(x.Lhs[0]))
+			if x.Tok == token.ASSIGN {
+				return "(LSStore " + q(name) + " " + idx + " " + t.expr(x.Rhs[0]) + ")"
+			}
+			op, ok := map[token.Token]string{token.ADD_ASSIGN: "OAdd", token.SUB_ASSIGN: "OSub", token.MUL_ASSIGN: "OMul", token.QUO_ASSIGN: "OQuo",
+				token.REM_ASSIGN: "ORem", token.SHL_ASSIGN: "OShl", token.SHR_ASSIGN: "OShr", token.AND_ASSIGN: "OAnd", token.OR_ASSIGN: "OOr", token.XOR_ASSIGN: "OXor"}[x.Tok]
+			if !ok {
+				fail("assignment operator %s", x.Tok)
+			}
+			return "(LSStore " + q(name) + " " + idx + " (LBin " + ty + " " + op + " (LIndex " + q(name) + " " + idx + ") " + t.expr(x.Rhs[0]) + "))"
+		}
+		if t.L && (isSliceType(t.info.TypeOf(x.Rhs[0])) || (t.isNil(x.Rhs[0]) && isSliceType(t.info.TypeOf(x.Lhs[0])))) {
+			if x.Tok != token.DEFINE && x.Tok != token.ASSIGN {
+				fail("assignment operator %s on a slice", x.Tok)
+			}
+			return t.assignSlice(x.Lhs[0], x.Rhs[0])
+		}
 		if x.Tok == token.DEFINE || x.Tok == token.ASSIGN {
 			rhs = t.expr(x.Rhs[0])
-			return "(SAssign " + q(t.lhs(x.Lhs[0])) + " " + rhs + ")"
+			return "(" + t.c("SAssign") + " " + q(t.lhs(x.Lhs[0])) + " " + rhs + ")"
 		}
 		op, ok := map[token.Token]string{token.ADD_ASSIGN: "OAdd", token.SUB_ASSIGN: "OSub", token.MUL_ASSIGN: "OMul", token.QUO_ASSIGN: "OQuo",
 			token.REM_ASSIGN: "ORem", token.SHL_ASSIGN: "OShl", token.SHR_ASSIGN: "OShr", token.AND_ASSIGN: "OAnd", token.OR_ASSIGN: "OOr", token.XOR_ASSIGN: "OXor"}[x.Tok]
@@ -419,39 +817,79 @@ func (t *tr) stmt(s ast.Stmt, results *types.Tuple) string {
 			fail("assignment operator %s", x.Tok)
 		}
 		ty := ityOf(t.info.TypeOf(x.Lhs[0]))
-		return "(SAssign " + q(t.lhs(x.Lhs[0])) + " (EBin " + ty + " " + op + " " + t.expr(x.Lhs[0]) + " " + t.expr(x.Rhs[0]) + "))"
+		return "(" + t.c("SAssign") + " " + q(t.lhs(x.Lhs[0])) + " (" + t.c("EBin") + " " + ty + " " + op + " " + t.expr(x.Lhs[0]) + " " + t.expr(x.Rhs[0]) + "))"
 	case *ast.IncDecStmt:
 		op := "OAdd"
 		if x.Tok == token.DEC {
 			op = "OSub"
 		}
 		ty := ityOf(t.info.TypeOf(x.X))
-		return "(SAssign " + q(t.lhs(x.X)) + " (EBin " + ty + " " + op + " " + t.expr(x.X) + " (EConst 1)))"
+		if ix, ok := x.X.(*ast.IndexExpr); ok && t.L {
+			name, idx := t.indexParts(ix, true)
+			return "(LSStore " + q(name) + " " + idx + " (LBin " + ty + " " + op + " (LIndex " + q(name) + " " + idx + ") (LConst 1)))"
+		}
+		return "(" + t.c("SAssign") + " " + q(t.lhs(x.X)) + " (" + t.c("EBin") + " " + ty + " " + op + " " + t.expr(x.X) + " (" + t.c("EConst") + " 1)))"
 	case *ast.IfStmt:
 		var pre []string
 		if x.Init != nil {
 			pre = append(pre, t.stmt(x.Init, results))
 		}
-		els := "SSkip"
+		els := t.c("SSkip")
 		if x.Else != nil {
 			els = t.stmt(x.Else, results)
 		}
-		return seq(append(pre, "(SIf "+t.expr(x.Cond)+"\n    "+t.block(x.Body, results)+"\n    "+els+")"))
+		return t.seq(append(pre, "("+t.c("SIf")+" "+t.expr(x.Cond)+"\n    "+t.block(x.Body, results)+"\n    "+els+")"))
 	case *ast.ForStmt:
 		noJumps(x.Body)
 		var pre []string
 		if x.Init != nil {
 			pre = append(pre, t.stmt(x.Init, results))
 		}
-		cond := "(EConst 1)"
+		cond := "(" + t.c("EConst") + " 1)"
 		if x.Cond != nil {
 			cond = t.expr(x.Cond)
 		}
 		body := t.block(x.Body, results)
 		if x.Post != nil {
-			body = seq([]string{body, t.stmt(x.Post, results)})
+			body = t.seq([]string{body, t.stmt(x.Post, results)})
 		}
-		return seq(append(pre, "(SFor "+cond+"\n    "+body+")"))
+		return t.seq(append(pre, "("+t.c("SFor")+" "+cond+"\n    "+body+")"))
+	case *ast.ExprStmt:
+		if c, ok := x.X.(*ast.CallExpr); ok && t.L && t.builtinName(c) != "" {
+			fail("builtin %s as a statement", t.builtinName(c))
+		}
+	case *ast.RangeStmt:
+		if !t.L {
+			fail("statement %T", s)
+		}
+		xs, ok := t.sliceVar(x.X)
+		if !ok {
+			fail("range over %s: only a slice variable can be ranged over", types.ExprString(x.X))
+		}
+		if x.Tok != token.DEFINE && (x.Key != nil || x.Value != nil) {
+			fail("range assigning to existing variables")
+		}
+		noJumps(x.Body)
+		blank := func(e ast.Expr) bool {
+			if e == nil {
+				return true
+			}
+			id, ok := e.(*ast.Ident)
+			return ok && id.Name == "_"
+		}
+		k, v := "_", "_"
+		if !blank(x.Key) {
+			k = t.lhs(x.Key)
+		}
+		if !blank(x.Value) {
+			// the value variable reads the elements as they are when the iteration starts: a body that
+			// changes the slice would see its own stores in Go but not in the by-value semantics
+			if t.modifies(x.Body, xs) {
+				fail("the ranged slice %s is modified inside the loop body", xs.Name())
+			}
+			v = t.lhs(x.Value)
+		}
+		return "(LSRange " + q(k) + " " + q(v) + " " + q(t.nameOf(xs)) + "\n    " + t.block(x.Body, results) + ")"
 	case *ast.SwitchStmt:
 		if x.Tag != nil {
 			fail("switch with a tag")
@@ -464,7 +902,7 @@ func (t *tr) stmt(s ast.Stmt, results *types.Tuple) string {
 		// cases in source order, default last
 		type cc struct{ cond, body string }
 		var cases []cc
-		def := "SSkip"
+		def := t.c("SSkip")
 		for _, c := range x.Body.List {
 			cl := c.(*ast.CaseClause)
 			var bs []string
@@ -472,20 +910,20 @@ func (t *tr) stmt(s ast.Stmt, results *types.Tuple) string {
 				bs = append(bs, t.stmt(s, results))
 			}
 			if cl.List == nil {
-				def = seq(bs)
+				def = t.seq(bs)
 				continue
 			}
 			cond := t.expr(cl.List[0])
 			for _, e := range cl.List[1:] {
-				cond = "(EOrElse " + cond + " " + t.expr(e) + ")"
+				cond = "(" + t.c("EOrElse") + " " + cond + " " + t.expr(e) + ")"
 			}
-			cases = append(cases, cc{cond, seq(bs)})
+			cases = append(cases, cc{cond, t.seq(bs)})
 		}
 		out := def
 		for i := len(cases) - 1; i >= 0; i-- {
-			out = "(SIf " + cases[i].cond + "\n    " + cases[i].body + "\n    " + out + ")"
+			out = "(" + t.c("SIf") + " " + cases[i].cond + "\n    " + cases[i].body + "\n    " + out + ")"
 		}
-		return seq(append(pre, out))
+		return t.seq(append(pre, out))
 	case *ast.ReturnStmt:
 		if len(x.Results) == 0 {
 			var es []string
@@ -494,12 +932,12 @@ func (t *tr) stmt(s ast.Stmt, results *types.Tuple) string {
 					fail("bare return with unnamed results")
 				}
 				if results.At(i).Name() == "_" {
-					es = append(es, "(EConst 0)") // a blank result is never assigned: its zero value
+					es = append(es, "("+t.c("EConst")+" 0)") // a blank result is never assigned: its zero value
 					continue
 				}
-				es = append(es, "(EVar "+q(t.nameOf(results.At(i)))+")")
+				es = append(es, "("+t.c("EVar")+" "+q(t.nameOf(results.At(i)))+")")
 			}
-			return "(SReturn [" + strings.Join(es, "; ") + "])"
+			return "(" + t.c("SReturn") + " [" + strings.Join(es, "; ") + "])"
 		}
 		if len(x.Results) == 1 && results.Len() > 1 {
 			// return f(args) forwarding all results of a call
@@ -513,21 +951,25 @@ func (t *tr) stmt(s ast.Stmt, results *types.Tuple) string {
 			}
 			var tmps, evs []string
 			for i := 0; i < results.Len(); i++ {
-				ityOf(results.At(i).Type())
+				t.tyOK(results.At(i).Type())
 				tmps = append(tmps, q(fmt.Sprintf("ret#%d", i)))
-				evs = append(evs, "(EVar "+q(fmt.Sprintf("ret#%d", i))+")")
+				evs = append(evs, "("+t.c("EVar")+" "+q(fmt.Sprintf("ret#%d", i))+")")
 			}
-			return "(SSeq (SCall [" + strings.Join(tmps, "; ") + "] " + q(f) + " " + targ + " " + args + ")\n   (SReturn [" + strings.Join(evs, "; ") + "]))"
+			return "(" + t.c("SSeq") + " (" + t.c("SCall") + " [" + strings.Join(tmps, "; ") + "] " + q(f) + " " + targ + " " + args + ")\n   (" + t.c("SReturn") + " [" + strings.Join(evs, "; ") + "]))"
 		}
 		if len(x.Results) != results.Len() {
 			fail("return of a multi-value call")
 		}
 		var es []string
 		for i, r := range x.Results {
+			if t.L && isSliceType(results.At(i).Type()) {
+				es = append(es, t.sliceValue(r, "result"))
+				continue
+			}
 			ityOf(results.At(i).Type())
 			es = append(es, t.expr(r))
 		}
-		return "(SReturn [" + strings.Join(es, "; ") + "])"
+		return "(" + t.c("SReturn") + " [" + strings.Join(es, "; ") + "])"
 	}
 	fail("statement %T", s)
 	return ""
@@ -546,7 +988,7 @@ type emitted struct {
 	key, ident, body, pos string
 }
 
-func translate(fset *token.FileSet, info *types.Info, pkg *types.Package, fd *ast.FuncDecl, relfile string) (out emitted, err error) {
+func translate(fset *token.FileSet, info *types.Info, pkg *types.Package, fd *ast.FuncDecl, relfile string, L bool) (out emitted, err error) {
 	defer func() {
 		if r := recover(); r != nil {
 			if u, ok := r.(unsupported); ok {
@@ -558,8 +1000,11 @@ func translate(fset *token.FileSet, info *types.Info, pkg *types.Package, fd *as
 	}()
 	fn := info.Defs[fd.Name].(*types.Func)
 	sig := fn.Type().(*types.Signature)
-	t := &tr{fset: fset, info: info, pkg: pkg, names: map[types.Object]string{}, used: map[string]int{}}
+	t := &tr{fset: fset, info: info, pkg: pkg, names: map[types.Object]string{}, used: map[string]int{}, L: L, sparams: map[types.Object]bool{}}
 	var params, outs []string
+	if r := sig.Recv(); r != nil && L {
+		fail("method: a receiver is outside the slice fragment")
+	}
 	if r := sig.Recv(); r != nil {
 		rt := r.Type()
 		ptr := false
@@ -597,25 +1042,39 @@ func translate(fset *token.FileSet, info *types.Info, pkg *types.Package, fd *as
 	if sig.TypeParams() != nil && sig.TypeParams().Len() > 1 {
 		fail("more than one type parameter")
 	}
-	if sig.Variadic() {
+	if sig.Variadic() && !L {
 		fail("variadic function")
 	}
 	for i := 0; i < sig.Params().Len(); i++ {
 		p := sig.Params().At(i)
-		ityOf(p.Type())
+		t.tyOK(p.Type()) // (a variadic parameter ...T has the type []T)
+		if isSliceType(p.Type()) {
+			t.sparams[p] = true
+		}
 		params = append(params, q(t.nameOf(p)))
 	}
+	var init []string
 	for i := 0; i < sig.Results().Len(); i++ {
 		r := sig.Results().At(i)
-		ityOf(r.Type())
+		t.tyOK(r.Type())
 		if r.Name() != "" && r.Name() != "_" {
-			t.nameOf(r)
+			n := t.nameOf(r)
+			if isSliceType(r.Type()) {
+				// a named slice result starts as nil (a scalar one as 0, the default of an unset variable)
+				init = append(init, "(LSAssign "+q(n)+" LNil)")
+			}
 		}
 	}
 	body := t.block(fd.Body, sig.Results())
 	key := funcKey(fn)
 	ident := "f_" + strings.NewReplacer(".", "_").Replace(key)
 	p := fset.Position(fd.Pos())
+	if L {
+		body = t.seq(append(init, body))
+		out = emitted{key: key, ident: "fl_" + strings.NewReplacer(".", "_").Replace(key), pos: fmt.Sprintf("%s:%d", relfile, p.Line),
+			body: "{| lparams := [" + strings.Join(params, "; ") + "];\n   lbody :=\n   " + body + " |}"}
+		return out, nil
+	}
 	out = emitted{key: key, ident: ident, pos: fmt.Sprintf("%s:%d", relfile, p.Line),
 		body: "{| fparams := [" + strings.Join(params, "; ") + "];\n   fouts := [" + strings.Join(outs, "; ") + "];\n   fbody :=\n   " + body + " |}"}
 	return out, nil
@@ -626,21 +1085,45 @@ func main() {
 		fmt.Fprintln(os.Stderr, "usage (from the repository root): go2coq <out.v>")
 		os.Exit(2)
 	}
-	var ems []emitted
 	var unsup []string
-	// GO2COQ_SELECT="dir=Name1,Name2;dir2=T.Method" replaces the built-in selection (used by the self-test)
-	if env := os.Getenv("GO2COQ_SELECT"); env != "" {
-		selected = nil
+	// GO2COQ_SELECT="dir=Name1,Name2;dir2=T.Method" replaces the built-in selection (used by the self-test);
+	// GO2COQ_SELECT_L likewise for the slice fragment ("-" = nothing)
+	parseSel := func(env string) (out []struct {
+		dir   string
+		names []string
+	}) {
 		for _, part := range strings.Split(env, ";") {
 			kv := strings.SplitN(part, "=", 2)
 			if len(kv) == 2 {
-				selected = append(selected, struct {
+				out = append(out, struct {
 					dir   string
 					names []string
 				}{kv[0], strings.Split(kv[1], ",")})
 			}
 		}
+		return out
 	}
+	if env := os.Getenv("GO2COQ_SELECT"); env != "" {
+		selected = parseSel(env)
+		if os.Getenv("GO2COQ_SELECT_L") == "" {
+			selectedL = nil // a replaced selection names another module: the built-in slice table does not apply
+		}
+	}
+	if env := os.Getenv("GO2COQ_SELECT_L"); env != "" {
+		selectedL = parseSel(env)
+	}
+	ems := translateAll(selected, false, &unsup)
+	emsL := translateAll(selectedL, true, &unsup)
+	writeOut(ems, emsL, unsup)
+}
+
+func translateAll(selected []struct {
+	dir   string
+	names []string
+}, L bool, unsupp *[]string) []emitted {
+	var ems []emitted
+	unsup := *unsupp
+	defer func() { *unsupp = unsup }()
 	for _, sel := range selected {
 		fset := token.NewFileSet()
 		pkgs, err := parser.ParseDir(fset, sel.dir, func(fi os.FileInfo) bool {
@@ -696,7 +1179,7 @@ func main() {
 						continue
 					}
 					found[name] = true
-					em, err := translate(fset, info, tpkg, fd, filepath.ToSlash(fnames[i]))
+					em, err := translate(fset, info, tpkg, fd, filepath.ToSlash(fnames[i]), L)
 					if err != nil {
 						unsup = append(unsup, fmt.Sprintf("%s.%s: %v", tpkg.Name(), name, err))
 						continue
@@ -711,9 +1194,13 @@ func main() {
 			}
 		}
 	}
+	return ems
+}
+
+func writeOut(ems, emsL []emitted, unsup []string) {
 	var sb strings.Builder
 	sb.WriteString("(* GENERATED by go2coq from the Go source of go-square - do not edit.\n   Regenerated by bin/check on every run; the theorems of GenProofs/ are about these values. *)\n")
-	sb.WriteString("From GS.Model Require Import GoLite.\nOpen Scope string_scope.\nOpen Scope Z_scope.\n\n")
+	sb.WriteString("From GS.Model Require Import GoLite.\nFrom GS.Model Require Import GoLiteL.\nOpen Scope string_scope.\nOpen Scope Z_scope.\n\n")
 	for _, e := range ems {
 		fmt.Fprintf(&sb, "(* %s  (%s) *)\nDefinition %s : fundef :=\n  %s.\n\n", e.key, e.pos, e.ident, e.body)
 	}
@@ -733,6 +1220,19 @@ func main() {
 		sb.WriteString(q(strings.ReplaceAll(u, "\"", "'")))
 	}
 	sb.WriteString("].\n")
+	// the slice fragment (GoLiteL)
+	sb.WriteString("\n(* ---- functions with integer slices: values of the GoLiteL embedding (Model/GoLiteL.v) ---- *)\n\n")
+	for _, e := range emsL {
+		fmt.Fprintf(&sb, "(* %s  (%s) *)\nDefinition %s : lfundef :=\n  %s.\n\n", e.key, e.pos, e.ident, e.body)
+	}
+	sb.WriteString("Definition gen_program_l : lprogram :=\n  [")
+	for i, e := range emsL {
+		if i > 0 {
+			sb.WriteString(";\n   ")
+		}
+		fmt.Fprintf(&sb, "(%s, %s)", q(e.key), e.ident)
+	}
+	sb.WriteString("].\n")
 	if err := os.WriteFile(os.Args[1], []byte(sb.String()), 0o644); err != nil {
 		fmt.Fprintln(os.Stderr, err)
 		os.Exit(1)
@@ -740,5 +1240,5 @@ func main() {
 	for _, u := range unsup {
 		fmt.Fprintln(os.Stderr, "unsupported:", u)
 	}
-	fmt.Printf("go2coq: %d functions translated, %d unsupported\n", len(ems), len(unsup))
+	fmt.Printf("go2coq: %d functions translated, %d with slices, %d unsupported\n", len(ems), len(emsL), len(unsup))
 }
